@@ -143,14 +143,11 @@ Theorem C17_nip11_no_limitation_identity_guarded :
 Proof. exact nip11_no_limitation_identity_guarded. Qed.
 Print Assumptions C17_nip11_no_limitation_identity_guarded.
 
-(** ... [nip11_no_limitation_identity] itself is REFUTED on the current tree
-    (defect F4): with Limitation == nil the middleware panics when applied.
-    After the repair this theorem is to be replaced by the full statement
-    (text in MwProofs.v next to the lemma). *)
-Theorem C17_nip11_no_limitation_identity_refuted :
-  exists d, no_limitation_block d /\ build_nip11 d = BPanic.
-Proof. exact nip11_no_limitation_identity_refuted. Qed.
-Print Assumptions C17_nip11_no_limitation_identity_refuted.
+(** ... which it is since the repair of F4: [nip11_no_limitation_identity] *)
+Theorem C17_nip11_no_limitation_identity :
+  forall d, no_limitation_block d -> build_nip11 d = BStack [].
+Proof. exact nip11_no_limitation_identity. Qed.
+Print Assumptions C17_nip11_no_limitation_identity.
 
 (** the model satisfies the oracle used by the correspondence check — the
     layered reading of the property text over observations — for every stack
